@@ -3,8 +3,38 @@ package main
 func checkSpecs() map[string]CheckSpec {
 	m := map[string]CheckSpec{}
 	add := func(c CheckSpec) { m[c.Property] = c }
+	B := DomainB
+	add(CheckSpec{Property: "C01", Harnesses: []HarnessSpec{
+		{Func: "HC01_Point", Domain: B, Covers: []string{"accepted", "rejected"}},
+		{Func: "HC01_LineString", Domain: B, Covers: []string{"accepted", "rejected"}},
+		{Func: "HC01_Polygon", Domain: B, Covers: []string{"accepted", "rejected"}},
+		{Func: "HC01_MultiPoint", Domain: B, Covers: []string{"accepted", "rejected"}},
+		{Func: "HC01_MultiPolygon", Domain: B, Covers: []string{"accepted", "rejected"}},
+		{Func: "HC01_Flat", Domain: B, Covers: []string{"end"}},
+	}, Explanation: "SetCoords/Coords/New*Flat of all seven geometry types executed symbolically for every nested-coordinate shape inside the bounds, every layout in {NoLayout,XY,XYZ,XYM,XYZM,Layout(5),Layout(6)} and every float64 bit pattern."})
+	add(CheckSpec{Property: "C02", Harnesses: []HarnessSpec{
+		{Func: "HC02_MultiPolygonPush", Domain: B, Covers: []string{"pushed", "rejected"}},
+		{Func: "HC02_PolygonPush", Domain: B, Covers: []string{"pushed", "rejected"}},
+		{Func: "HC02_MultiPointPush", Domain: B, Covers: []string{"pushed", "rejected"}},
+		{Func: "HC02_Reverse", Domain: B, Covers: []string{"end"}},
+		{Func: "HC02_Reverse12", Domain: B, Covers: []string{"end"}},
+		{Func: "HC02_Swap", Domain: B, Covers: []string{"end"}},
+		{Func: "HC02_Collection", Domain: B, Covers: []string{"pushed", "rejected"}},
+	}, Explanation: "One inductive Push step from an arbitrary well-formed pre-state (shape symbolic inside the bounds) for Polygon, MultiLineString, MultiPoint, MultiPolygon, GeometryCollection; Reverse and Swap."})
+	add(CheckSpec{Property: "C08", Harnesses: []HarnessSpec{
+		{Func: "HC08_Tight", Domain: DomainK, Covers: []string{"end"}},
+		{Func: "HC08_Extend", Domain: DomainK, Covers: []string{"end"}},
+		{Func: "HC08_Collection", Domain: DomainK, Covers: []string{"end"}},
+		{Func: "HC08_Overlaps", Domain: DomainK, Covers: []string{"end"}},
+	}, Explanation: "Bounds/Extend/Overlaps executed symbolically over every non-NaN float64 bit pattern."})
 	add(CheckSpec{Property: "C09", Harnesses: []HarnessSpec{
-		{Func: "HC09_TotalMultiPolygon", Domain: DomainB, Covers: []string{"end"}},
+		{Func: "HC09_TotalMultiPolygon", Domain: B, Covers: []string{"end"}},
+		{Func: "HC09_TotalOthers", Domain: B, Covers: []string{"end"}},
 	}, Explanation: "Bounded symbolic execution of Area/Length."})
+	add(CheckSpec{Property: "C16", Harnesses: []HarnessSpec{
+		{Func: "HC16_Clone", Domain: B, Covers: []string{"end"}},
+		{Func: "HC16_ClonePush", Domain: B, Covers: []string{"end"}},
+		{Func: "HC16_CoordBounds", Domain: B, Covers: []string{"end"}},
+	}, Explanation: "Clone of every cloneable type on arbitrary well-formed geometries; heap-object identity decides sharing."})
 	return m
 }
